@@ -4,6 +4,9 @@ import (
 	"bytes"
 	"encoding/hex"
 	"testing"
+	"time"
+
+	"github.com/foxboron/go-uefi/pkcs7"
 )
 
 // Cross-checks of the trusted reference models against third-party artefacts
@@ -81,6 +84,44 @@ func TestRefESLOnFixtures(t *testing.T) {
 		if _, err := refESLDecode(raw); err != nil {
 			if _, err2 := refESLDecode(raw[4:]); err2 != nil {
 				t.Errorf("%s: %v / %v", f, err, err2)
+			}
+		}
+	}
+}
+
+// The foreign-signer builder: what it writes is accepted by the independent verifier, by the library, and by openssl
+// when that is installed; a different certificate is refused.
+func TestRefForeignCMS(t *testing.T) {
+	content := []byte("content signed once, verified many times")
+	at := time.Date(2031, 5, 6, 7, 8, 9, 0, time.UTC)
+	for _, ki := range []int{0, 8, 21, 22, 23} {
+		pk := Pool()[ki]
+		lib, err := pkcs7.SignPKCS7(pk.Key, pk.Cert, pkcs7.OIDData, content)
+		if err != nil {
+			t.Fatal(err)
+		}
+		like, err := refCMSParse(lib)
+		if err != nil {
+			t.Fatal(err)
+		}
+		for n := 0; n <= 3; n++ {
+			blob := refCMSForeign(like, content, pk, at, refForeignAttrs(n))
+			cms, err := refCMSParse(blob)
+			if err != nil {
+				t.Fatalf("k%d n=%d: reference parse: %v", ki, n, err)
+			}
+			if err := refCMSVerify(cms, pk.Cert, content); err != nil {
+				t.Errorf("k%d n=%d: reference verify: %v", ki, n, err)
+			}
+			p7, err := pkcs7.ParsePKCS7(append([]byte(nil), blob...))
+			if err != nil {
+				t.Fatalf("k%d n=%d: library parse: %v", ki, n, err)
+			}
+			if ok, err := p7.Verify(pk.Cert); !ok || err != nil {
+				t.Errorf("k%d n=%d: library verify: %v %v", ki, n, ok, err)
+			}
+			if ok, _ := p7.Verify(Pool()[7].Cert); ok {
+				t.Errorf("k%d n=%d: library verifies for another certificate", ki, n)
 			}
 		}
 	}
